@@ -268,8 +268,36 @@ class Driver:
         before_m = {f: sb.mtime(f) for f in self.files}
         before_c = {f: open(sb.path(f), "rb").read() for f in self.files if before_m[f] is not None}
         others0 = self.other_files_sig()
-        r, calls, obs = self.observe_cmd(["touch"] + self.names(h["sel"]))
-        # re-pin what gwf touched (real clock) to logical times, preserving the observed order
+        # The file system clock is coarse (files touched within one tick get equal times), which would
+        # hide a wrong touch order.  Observe the order of the touch events themselves: in this process
+        # pathlib.Path.touch / os.utime are wrapped so that every touch event gets the next tick of an
+        # (adversarial but legal) clock that advances with every call.
+        import pathlib
+
+        seq = [0]
+        base_ns = (BASE_TIME + 200000) * 10**9
+        orig_touch, orig_utime = pathlib.Path.touch, os.utime
+
+        def tick(path):
+            seq[0] += 1
+            t = base_ns + seq[0] * 10**9
+            orig_utime(path, ns=(t, t))
+
+        def touch(self_, *a, **k):
+            orig_touch(self_, *a, **k)
+            tick(self_)
+
+        def utime(path, *a, **k):
+            orig_utime(path, *a, **k)
+            if a == () and not k or (a and a[0] is None) or k.get("times", 1) is None:
+                tick(path)
+
+        pathlib.Path.touch, os.utime = touch, utime
+        try:
+            r, calls, obs = self.observe_cmd(["touch"] + self.names(h["sel"]), sub=False)
+        finally:
+            pathlib.Path.touch, os.utime = orig_touch, orig_utime
+        # re-pin what gwf touched to logical times, preserving the observed order
         touched = [f for f in self.files if sb.mtime(f) is not None and sb.mtime(f) != before_m[f]]
         content_ok = all(open(sb.path(f), "rb").read() == (before_c[f] if f in before_c else b"") for f in self.files if sb.mtime(f) is not None)
         ranks = sorted({sb.mtime(f) for f in touched})
@@ -292,7 +320,11 @@ class Driver:
         sb = self.sb
         args = ["clean"] + (["--all"] if h["all"] else [])
         inp, declined = None, bool(h.get("declined"))
-        if declined:
+        nomatch = []
+        if declined and self.rng.random() < 0.5:
+            # names were given but match no target (typo, renamed target): nothing is selected
+            nomatch = ["No_such_target", "zz*"] + (["-f"] if self.rng.random() < 0.5 else [])
+        elif declined:
             inp = self.rng.choice(["n\n", "\n", "", "N\n"])
         elif not h["sel"]:
             if self.rng.random() < 0.5:
@@ -302,7 +334,7 @@ class Driver:
         elif self.rng.random() < 0.3:
             args.append("-f")
         others0 = self.other_files_sig()
-        r, calls, obs = self.observe_cmd(args + self.names(h["sel"]), input=inp)
+        r, calls, obs = self.observe_cmd(args + self.names(h["sel"]) + nomatch, input=inp)
         others1 = self.other_files_sig()
         for d in (others0, others1):
             d.pop(".gwf/spec-hashes.json", None)
@@ -313,7 +345,10 @@ class Driver:
         sb = self.sb
         args = ["cancel"]
         inp, declined = None, bool(h.get("declined"))
-        if declined:
+        nomatch = []
+        if declined and self.rng.random() < 0.5:
+            nomatch = ["No_such_target", "zz*"] + (["-f"] if self.rng.random() < 0.5 else [])
+        elif declined:
             inp = self.rng.choice(["n\n", "\n", ""])
         elif not h["sel"]:
             if self.rng.random() < 0.5:
@@ -327,7 +362,7 @@ class Driver:
                 if rj is not None:
                     refused.append(rj["id"])
         sb.set_refuse([str(j + FIRST_ID - 1) for j in refused])
-        r, calls, obs = self.observe_cmd(args + self.names(h["sel"]), input=inp)
+        r, calls, obs = self.observe_cmd(args + self.names(h["sel"]) + nomatch, input=inp)
         sb.set_refuse([])
         reqs = []
         for c in calls:
